@@ -8,6 +8,8 @@ import (
 	"runtime/pprof"
 	"sync"
 
+	"github.com/influxdata/kapacitor/server/vars"
+
 	"kapverif/rt"
 )
 
@@ -25,9 +27,22 @@ var cfgs = []Cfg{
 }
 
 type job struct {
+	kind string // node | svc
 	cfg  Cfg
 	hist []Pt
-	kind string
+	ops  []SOp
+	// node: also restart the task in-process after every point
+	taskRestarts bool
+}
+
+// curJobs: lineage -> description of the job in progress (for harness error messages)
+var curJobs sync.Map
+
+func jobOf(lineage int64) string {
+	if v, ok := curJobs.Load(lineage); ok {
+		return v.(string)
+	}
+	return "?"
 }
 
 type result struct {
@@ -62,6 +77,41 @@ func histories(maxLen int, ids []string, levels []int) [][]Pt {
 	return out
 }
 
+// opHistories enumerates service operation histories of length 1..maxLen, up to
+// renaming of IDs and of the two topics (first used = "a" / "anon").
+func opHistories(maxLen int, ids []string, levels []int) [][]SOp {
+	topics := []string{"anon", "named"}
+	var out [][]SOp
+	var rec func(cur []SOp, usedT, usedI int)
+	rec = func(cur []SOp, usedT, usedI int) {
+		if len(cur) > 0 {
+			out = append(out, append([]SOp(nil), cur...))
+		}
+		if len(cur) == maxLen {
+			return
+		}
+		for ti := 0; ti < len(topics) && ti <= usedT; ti++ {
+			nt := usedT
+			if ti == usedT {
+				nt++
+			}
+			for i := 0; i < len(ids) && i <= usedI; i++ {
+				ni := usedI
+				if i == usedI {
+					ni++
+				}
+				for _, l := range levels {
+					rec(append(cur, SOp{"collect", topics[ti], ids[i], l}), nt, ni)
+				}
+			}
+			rec(append(cur, SOp{"close", topics[ti], "", 0}), nt, usedI)
+			rec(append(cur, SOp{"delete", topics[ti], "", 0}), nt, usedI)
+		}
+	}
+	rec(nil, 0, 0)
+	return out
+}
+
 func histKey(c Cfg, h []Pt) string {
 	s := fmt.Sprintf("%v%v%v", c.Anon, c.Named, c.SCO)
 	for _, p := range h {
@@ -73,18 +123,34 @@ func histKey(c Cfg, h []Pt) string {
 func doJob(j job, lineage int64) result {
 	var res result
 	switch j.kind {
-	case "crash":
-		r := doRun1(j.cfg, j.hist, lineage)
-		for i, cp := range r.points {
-			tr := doRun2(r, cp, lineage)
+	case "node":
+		r := doRun1(j.cfg, j.hist, lineage, true)
+		reset := func(kind string) rt.M {
 			f := j.cfg.fields()
-			f["kind"] = "crash"
+			f["kind"] = kind
 			f["hist"] = histFields(j.hist)
-			res.resets = append(res.resets, f)
-			res.traces = append(res.traces, tr)
+			return f
+		}
+		tails := map[[2]int][]rt.M{}
+		for i, cp := range r.points {
+			res.resets = append(res.resets, reset("crash"))
+			res.traces = append(res.traces, doRun2(r, cp, lineage, tails))
 			res.keys = append(res.keys, fmt.Sprintf("%s@%d", histKey(j.cfg, j.hist), i))
 		}
+		if j.taskRestarts {
+			for at := 0; at < len(j.hist); at++ {
+				res.resets = append(res.resets, reset("taskrestart"))
+				res.traces = append(res.traces, doTaskRestart(r, at, lineage))
+				res.keys = append(res.keys, fmt.Sprintf("%s@tr%d", histKey(j.cfg, j.hist), at))
+			}
+		}
 		r.cleanup()
+	case "svc":
+		for i, tr := range doSvc(j.ops, lineage) {
+			res.resets = append(res.resets, rt.M{"kind": "svc", "anon": true, "named": true, "sco": false, "hist": opsFields(j.ops)})
+			res.traces = append(res.traces, tr)
+			res.keys = append(res.keys, fmt.Sprintf("svc%v@%d", j.ops, i))
+		}
 	}
 	return res
 }
@@ -96,16 +162,70 @@ func Run(r *rt.Run) error {
 		defer pprof.StopCPUProfile()
 	}
 	installHooks()
-	debug.SetGCPercent(400)
-	t := r.NewTrace("trace")
-	maxLen := 3
+	// Every AlertNode owns sync.Pools; a used Pool (and through it the whole executing
+	// task with its edge buffers) stays reachable for two GC cycles.  With a lazy GC the
+	// heap of this many-restarts driver grows geometrically, so collect eagerly.
+	debug.SetGCPercent(gcPercent())
+	debug.SetMemoryLimit(1 << 30)
+	t := r.NewTrace("trace000")
+	maxLen, svcLen, nRandom, nRandomSvc := 3, 3, 0, 0
 	if r.Thorough() {
-		maxLen = 4
+		maxLen, svcLen, nRandom, nRandomSvc = 4, 4, 150, 1500
 	}
+	ids := []string{"a", "b"}
+	levels := []int{0, 1, 2, 3}
 	var jobs []job
-	for _, h := range histories(maxLen, []string{"a", "b"}, []int{0, 1, 2, 3}) {
+	for _, h := range histories(maxLen, ids, levels) {
 		for _, c := range cfgs {
-			jobs = append(jobs, job{cfg: c, hist: h, kind: "crash"})
+			jobs = append(jobs, job{kind: "node", cfg: c, hist: h, taskRestarts: len(h) <= 3})
+		}
+	}
+	nExh := len(jobs)
+	// seeded random longer histories (a level changes with probability 1/2 so that
+	// stateChangesOnly sees both repeats and changes)
+	for i := 0; i < nRandom; i++ {
+		n := 5 + r.Rand.Intn(4)
+		h := make([]Pt, n)
+		lv := map[string]int{}
+		for k := range h {
+			id := ids[r.Rand.Intn(2)]
+			if r.Rand.Intn(2) == 0 {
+				lv[id] = r.Rand.Intn(4)
+			}
+			h[k] = Pt{id, lv[id]}
+		}
+		jobs = append(jobs, job{kind: "node", cfg: cfgs[r.Rand.Intn(len(cfgs))], hist: h, taskRestarts: true})
+	}
+	svcLevels := []int{0, 1, 3}
+	if r.Thorough() {
+		svcLevels = levels
+	}
+	nSvc := 0
+	for _, ops := range opHistories(svcLen, ids, svcLevels) {
+		jobs = append(jobs, job{kind: "svc", ops: ops})
+		nSvc++
+	}
+	for i := 0; i < nRandomSvc; i++ {
+		n := 5 + r.Rand.Intn(5)
+		ops := make([]SOp, n)
+		for k := range ops {
+			tp := []string{"anon", "named"}[r.Rand.Intn(2)]
+			switch x := r.Rand.Intn(8); {
+			case x == 0:
+				ops[k] = SOp{"close", tp, "", 0}
+			case x == 1:
+				ops[k] = SOp{"delete", tp, "", 0}
+			default:
+				ops[k] = SOp{"collect", tp, ids[r.Rand.Intn(2)], r.Rand.Intn(4)}
+			}
+		}
+		jobs = append(jobs, job{kind: "svc", ops: ops})
+	}
+	if mj := os.Getenv("C08_MAXJOBS"); mj != "" {
+		var n int
+		fmt.Sscan(mj, &n)
+		if n < len(jobs) {
+			jobs = jobs[:n]
 		}
 	}
 	workers := runtime.NumCPU() / 2
@@ -115,37 +235,87 @@ func Run(r *rt.Run) error {
 	if workers > 8 {
 		workers = 8
 	}
-	results := make([]result, len(jobs))
+	// workers run ahead; the writer emits the traces in job order (deterministic file
+	// for a given seed) and drops them, so memory stays bounded
+	done := make([]chan result, len(jobs))
+	for i := range done {
+		done[i] = make(chan result, 1)
+	}
 	var wg sync.WaitGroup
 	next := make(chan int)
+	inflight := make(chan struct{}, 4*workers) // back-pressure: the writer is never more than this many jobs behind
 	for wk := 0; wk < workers; wk++ {
 		wg.Add(1)
 		go func(wk int) {
 			defer wg.Done()
 			for i := range next {
-				results[i] = doJob(jobs[i], int64(wk+1))
+				inflight <- struct{}{}
+				curJobs.Store(int64(wk+1), fmt.Sprintf("job %d: %+v", i, jobs[i]))
+				done[i] <- doJob(jobs[i], int64(wk+1))
 			}
 		}(wk)
 	}
+	go func() {
+		for i := range jobs {
+			next <- i
+		}
+		close(next)
+	}()
+	restarts := map[string]int{}
+	const linesPerFile = 25000
+	fileNo := 0
 	for i := range jobs {
-		next <- i
-	}
-	close(next)
-	wg.Wait()
-	restarts := 0
-	for _, res := range results {
+		res := <-done[i]
+		<-inflight
 		for i, tr := range res.traces {
+			if t.Events > linesPerFile {
+				fileNo++
+				t = r.NewTrace(fmt.Sprintf("trace%03d", fileNo))
+			}
 			t.Reset(res.resets[i])
 			for _, e := range tr {
 				t.Event(e["ev"].(string), e)
 			}
 			t.Distinct(res.keys[i])
-			restarts++
+			restarts[res.resets[i]["kind"].(string)]++
 		}
 	}
+	wg.Wait()
+	if hp := os.Getenv("C08_HEAP"); hp != "" {
+		runtime.GC()
+		f, _ := os.Create(hp)
+		pprof.WriteHeapProfile(f)
+		f.Close()
+		fmt.Fprintf(os.Stderr, "goroutines at end: %d\n", runtime.NumGoroutine())
+		if sd, err := vars.GetStatsData(); err == nil {
+			cnt := map[string]int{}
+			for _, d := range sd {
+				cnt[d.Name+fmt.Sprint(d.Tags["node"], d.Tags["parent"], d.Tags["child"])]++
+			}
+			fmt.Fprintf(os.Stderr, "stats left: %v\n", cnt)
+		}
+		g, _ := os.Create(hp + ".goroutines")
+		pprof.Lookup("goroutine").WriteTo(g, 1)
+		g.Close()
+	}
 	r.Extra["max_history_len"] = maxLen
-	r.Extra["restarts"] = restarts
-	r.Extra["run1_histories"] = len(jobs)
-	r.Finish("every level history up to the length bound over 2 alert IDs x 4 levels (up to renaming of IDs) x {anonymous, named, both topics} x stateChangesOnly on/off; for each, a restart of the real service and task on the storage as it stood before and after every topic-store commit and at every point boundary, with the remaining points fed again; distinct by (configuration, history, crash point)", true)
+	r.Extra["exhaustive_node_histories_x_cfgs"] = nExh
+	r.Extra["random_node_histories"] = nRandom
+	r.Extra["svc_histories"] = nSvc
+	r.Extra["svc_max_len"] = svcLen
+	r.Extra["random_svc_histories"] = nRandomSvc
+	r.Extra["crash_restarts_node"] = restarts["crash"]
+	r.Extra["task_restarts_node"] = restarts["taskrestart"]
+	r.Extra["crash_restarts_svc"] = restarts["svc"]
+	r.Finish("node: every level history up to the length bound over 2 alert IDs x 4 levels (up to renaming of IDs) x {anonymous, named, both topics} x stateChangesOnly on/off on a real AlertNode task, restarted (fresh service + TaskMaster) on the storage as it stood before and after every topic-store commit and at every point boundary with the remaining points fed again, plus an in-process task restart after every point; svc: every history of Collect/CloseTopic/DeleteTopic on two topics up to the bound with a restart at every commit boundary; thorough adds seeded random longer histories; distinct by (configuration, history, crash point)", nRandom == 0)
 	return nil
+}
+
+func gcPercent() int {
+	if v := os.Getenv("C08_GOGC"); v != "" {
+		var n int
+		fmt.Sscan(v, &n)
+		return n
+	}
+	return 100
 }
